@@ -36,12 +36,14 @@ StagesOf(name) ==
          << {<<72,84,84,80,47,49,46,49,32>>, <<72,84,84,80,47,49,46,48,32>>}, Digs, Digs, Digs,
             {<<LF, LF>>, <<SP, 79, 75, CR, LF, CR, LF>>, <<SP, LF, LF>>} >>
     [] name = "DIGITS" ->
-         << UNION {HexPats(n) : n \in 0..20},
-            {<<CR, LF>>, <<SEMI, 120, CR, LF>>, <<SP, HT, CR, LF>>, <<LF>>} >>
+         << UNION {HexPats(n) : n \in 0..40},
+            {<<CR, LF>>, <<SEMI, 120, CR, LF>>, <<SP, HT, CR, LF>>, <<LF>>, <<SEMI, 97, 48, 70, 61, 49, CR, LF>>,
+             <<SP, SEMI, 48, 102, CR, LF>>} >>
     [] name = "LINES" ->
          LET ls == { <<97, COLON, 98, LF>>, <<97, COLON, SP, 98, SP, CR, LF>>, <<97, COLON, LF>>,
                      <<SP, 99, LF>>, <<120, LF>>, <<97, SP, COLON, 98, LF>>, <<97, COLON, 1, LF>>,
                      <<97, COLON, 98, HT, 99, 200, CR, LF>>,         \* interior HTAB, value ending in obs-text
+                     <<SP, CR, LF>>,                                 \* whitespace-only line
                      <<>> }                                          \* (no line: blocks of 0..4 lines)
          IN << ls, ls, ls, ls, {<<LF>>, <<CR, LF>>, <<98, COLON>>} >>
     [] name = "LINES5" ->
@@ -55,7 +57,9 @@ StagesOf(name) ==
          \* by every kind of byte, ending the buffer at every point
          << {<<>>, <<CR, LF>>, <<LF>>},
             {<<>>, <<71>>, <<71, 69>>, <<71, 69, 84>>, <<71, 69, 84, 32>>, <<80>>, <<80, 79>>, <<80, 79, 83>>,
-             <<80, 79, 83, 84>>, <<80, 79, 83, 84, 32>>, <<80, 85, 84>>, <<71, 69, 84, 84>>, <<80, 79, 83, 84, 83>>},
+             <<80, 79, 83, 84>>, <<80, 79, 83, 84, 32>>, <<80, 85, 84>>, <<71, 69, 84, 84>>, <<80, 79, 83, 84, 83>>,
+             <<79, 80, 84, 73, 79, 78, 83>>, <<67, 79, 78, 78, 69, 67, 84>>, <<68, 69, 76, 69, 84, 69>>, <<80, 65, 84, 67, 72>>,
+             <<72, 69, 65, 68>>, <<84, 82, 65, 67, 69>>, <<80, 82, 79, 80, 70, 73, 78, 68>>, <<111, 112, 116, 105, 111, 110, 115>>},
             {<<>>} \cup {<<b>> : b \in {0, 9, 10, 13, 32, 33, 47, 58, 65, 84, 97, 127, 128, 255}},
             {<<>>, <<47, 32, 72, 84, 84, 80, 47, 49, 46, 49, 13, 10, 13, 10>>, <<32, 47, 32, 72, 84, 84, 80, 47, 49, 46, 48, 10, 10>>} >>
     [] name = "VERSIONS" ->
@@ -76,6 +80,37 @@ StagesOf(name) ==
             {<<>>, <<SP>>, <<SP, SP>>, <<HT>>},
             {<<CR, LF>>, <<LF>>, <<CR>>},
             {<<LF>>, <<CR, LF>>, <<97, COLON, SP, 98, SP, CR, LF, CR, LF>>} >>
+    [] name = "PREFACES" ->
+         \* well-known protocol prefaces and near-HTTP start lines (code that special-cases them)
+         << { <<80,82,73,32,42,32,72,84,84,80,47,50,46,48,13,10,13,10,83,77,13,10,13,10>>,     \* HTTP/2 preface
+              <<71,69,84,32,47,32,72,84,84,80,47,50,46,48,13,10,13,10>>,                       \* GET / HTTP/2.0
+              <<79,80,84,73,79,78,83,32,42,32,72,84,84,80,47,49,46,49,13,10,13,10>>,           \* OPTIONS * HTTP/1.1
+              <<67,79,78,78,69,67,84,32,104,58,52,52,51,32,72,84,84,80,47,49,46,49,13,10,13,10>>, \* CONNECT h:443
+              <<72,84,84,80,47,50,32,50,48,48,13,10,13,10>>,                                   \* HTTP/2 200
+              <<72,84,84,80,47,49,46,49,32,49,48,48,32,67,111,110,116,105,110,117,101,13,10,13,10>>, \* 100 Continue
+              <<73,67,89,32,50,48,48,32,79,75,13,10,13,10>>,                                   \* ICY 200 OK
+              <<82,84,83,80,47,49,46,48,32,50,48,48,32,79,75,13,10,13,10>>,                    \* RTSP/1.0 200 OK
+              <<83,83,72,45,50,46,48,45,120,13,10>>,                                           \* SSH-2.0-x
+              <<22,3,1,0,5,1,0,0,1,0>>,                                                        \* TLS record
+              <<71,69,84,32,47,32,72,84,84,80,47,49,46,49,13,10,72,111,115,116,58,32,120,13,10,13,10>> },
+            {<<>>, <<120>>} >>
+    [] name = "DICT" ->
+         \* realistic header names and values (code that special-cases particular headers)
+         LET nm == { <<67,111,110,116,101,110,116,45,76,101,110,103,116,104>>,                \* Content-Length
+                     <<99,111,110,116,101,110,116,45,108,101,110,103,116,104>>,               \* content-length
+                     <<72,111,115,116>>,                                                      \* Host
+                     <<84,114,97,110,115,102,101,114,45,69,110,99,111,100,105,110,103>>,      \* Transfer-Encoding
+                     <<67,111,110,110,101,99,116,105,111,110>>,                               \* Connection
+                     <<67,111,111,107,105,101>>,                                              \* Cookie
+                     <<88,45,70,111,114,119,97,114,100,101,100,45,70,111,114>> }              \* X-Forwarded-For
+             sep == { <<COLON>>, <<COLON, SP>> }
+             vl == { <<48>>, <<49,50>>, <<49,50,44,32,49,50>>, <<43,53>>, <<48,120,49,48>>, <<>>,
+                     <<99,104,117,110,107,101,100>>, <<107,101,101,112,45,97,108,105,118,101>>,
+                     <<101,120,97,109,112,108,101,46,111,114,103,58,56,48>>, <<97,61,98,59,32,99,61,100>> }
+             el == { <<CR, LF>>, <<LF>> }
+             nm2 == { <<72,111,115,116>>, <<99,111,110,116,101,110,116,45,108,101,110,103,116,104>>, <<65>> }
+             vl2 == { <<49,50>>, <<49,50,44,32,49,50>>, <<>>, <<120>> }
+         IN << nm, sep, vl, el, nm2, {<<COLON, SP>>}, vl2, {<<CR, LF>>}, {<<CR, LF>>, <<LF>>} >>
     [] OTHER -> << >>
 Stages == StagesOf(L)
 
@@ -138,14 +173,22 @@ WalkBytes == {0, 9, 10, 13, 32, 33, 47, 48, 49, 50, 58, 59, 65, 70, 72, 80, 84, 
 WalkChoices(x) == {c \in WalkBytes : Step(x, c).st # "E"} \cup {0}
 NextWalk == cnt < L /\ \E b \in WalkChoices(s) : Feed(b) /\ cnt' = cnt + 1 /\ stage' = stage /\ todo' = todo
 
-Next == /\ ~IsDone(s)
-        /\ CASE Family = "BYTE" -> NextByte
-             [] Family = "EXT" -> NextExt
-             [] Family = "LANE" -> NextLane
-             [] Family = "SEQ" -> NextSeq
-             [] Family = "WALK" -> NextWalk
+\* a SEQ string is fed to its end even when a byte inside it decided the parse: the verdict is
+\* final (Step is absorbing), and the buffer handed to the code is the whole string -- code that
+\* recognises a complete well-known string (a protocol preface, a block of digits) is reached
+DrainSeq == /\ Family = "SEQ" /\ todo # <<>> /\ Feed(Head(todo)) /\ todo' = Tail(todo)
+            /\ stage' = stage /\ cnt' = cnt
+Next == \/ /\ ~IsDone(s)
+           /\ CASE Family = "BYTE" -> NextByte
+                [] Family = "EXT" -> NextExt
+                [] Family = "LANE" -> NextLane
+                [] Family = "SEQ" -> NextSeq
+                [] Family = "WALK" -> NextWalk
+        \/ IsDone(s) /\ DrainSeq
 Spec == Init /\ [][Next]_vars
 
-\* (inside a LANE tail the intermediate states are not emitted)
-Emit == (Family = "LANE" /\ todo # <<>>) \/ PrintT(ToJson(VecOf(s, buf, cfgb)))
+\* (inside a LANE tail, and inside the strings of the DICT family, the intermediate states are
+\* not emitted: only the states at the boundaries)
+Emit == (Family = "LANE" /\ todo # <<>>) \/ (Family = "SEQ" /\ L = "DICT" /\ todo # <<>>)
+        \/ PrintT(ToJson(VecOf(s, buf, cfgb)))
 =============================================================================
